@@ -7,6 +7,9 @@ import (
 	"bufio"
 	"bytes"
 	"os/exec"
+	"runtime"
+	"sync/atomic"
+	"time"
 	"regexp"
 	"strconv"
 	"encoding/hex"
@@ -65,9 +68,50 @@ func unhx(s string) []byte {
 
 var out *bufio.Writer
 
+var emitCount int64
+
 func emit(format string, a ...interface{}) {
 	fmt.Fprintf(out, format, a...)
 	out.WriteByte('\n')
+	atomic.AddInt64(&emitCount, 1)
+}
+
+// The pure engines call library functions in a plain loop. A library function that does not return (a container
+// looping on an inconsistent order, say) would leave the engine spinning until bin/check's time limit with the lines
+// produced so far still in the buffer. The watchdog notices that no line has been produced for a while, says so,
+// flushes what there is (the engine's goroutine is stuck inside the library, not writing) and ends the run.
+var stallHome = map[string]string{"metric": "C18", "security": "C17", "codec": "C15"}
+
+func stallWatchdog(engine string) {
+	prop, ok := stallHome[engine]
+	if !ok {
+		return
+	}
+	go func() {
+		last, since := int64(-1), time.Now()
+		for {
+			time.Sleep(2 * time.Second)
+			n := atomic.LoadInt64(&emitCount)
+			if n != last {
+				last, since = n, time.Now()
+				continue
+			}
+			if time.Since(since) > 60*time.Second {
+				buf := make([]byte, 1<<16)
+				st := string(buf[:runtime.Stack(buf, true)])
+				where := "?"
+				for _, l := range strings.Split(st, "\n") {
+					if strings.Contains(l, "github.com/anacrolix/dht/v2") && !strings.Contains(l, "verifharness") {
+						where = strings.TrimSpace(l)
+						break
+					}
+				}
+				fmt.Fprintf(out, "oracle %s library-call-does-not-return:%s no line for 60s after line %d; innermost library frame: %s\n", prop, engine, n, where)
+				out.Flush()
+				os.Exit(0)
+			}
+		}
+	}()
 }
 
 func b2i(b bool) int {
@@ -105,6 +149,7 @@ func main() {
 	out = bufio.NewWriterSize(w, 1<<20)
 	defer out.Flush()
 	e, ok := engines[flag.Arg(0)]
+	stallWatchdog(flag.Arg(0))
 	if !ok {
 		var names []string
 		for n := range engines {
